@@ -79,9 +79,8 @@ def theP (inst : Instance) (w : Worker) (c : Nat) : List (Var × Nat) :=
   if hasP inst w c then [(.P w.id c, 1)] else []
 
 theorem capableWorkers_one {inst : Instance} {w : Worker} (hw : inst.workers = [w]) (c : Nat) :
-    capableWorkers inst c = if inst.need c ≤ w.total then [w] else [] := by
+    capableWorkers inst c = if capable inst c w = true then [w] else [] := by
   simp only [capableWorkers, hw, List.filter_cons, List.filter_nil]
-  split <;> simp_all
 
 theorem gapRows_form {inst : Instance} {w : Worker} (hw : inst.workers = [w]) {bs : List Batch} {b : Batch}
     {cut : Cut} {c' : Nat} {s? : Option Nat} {r : Row} (hr : r ∈ gapRows inst bs b cut c' s?) :
@@ -113,9 +112,9 @@ theorem gapRows_form {inst : Instance} {w : Worker} (hw : inst.workers = [w]) {b
 
 theorem zeroCond_one {inst : Instance} {w : Worker} (hw : inst.workers = [w]) (b : Batch) (c' : Nat) :
     zeroCond inst b c' =
-      if inst.need c' ≤ w.total ∧ gap inst c' b.rq w = 0 ∧ hasP inst w b.rq = true then [.P w.id b.rq] else [] := by
+      if capable inst c' w = true ∧ gap inst c' b.rq w = 0 ∧ hasP inst w b.rq = true then [.P w.id b.rq] else [] := by
   simp only [zeroCond, capableWorkers_one hw]
-  by_cases h1 : inst.need c' ≤ w.total
+  by_cases h1 : capable inst c' w = true
   · by_cases h2 : gap inst c' b.rq w = 0
     · cases h3 : hasP inst w b.rq <;> simp [h1, h2, h3]
     · simp [h1, h2]
@@ -150,7 +149,7 @@ theorem zeroRows_form {inst : Instance} {w : Worker} (hw : inst.workers = [w]) {
 
 /-- the gap row of a cut with a bounded blocker is present -/
 theorem gapRow_some_mem {inst : Instance} {w : Worker} (hw : inst.workers = [w]) {bs : List Batch} {b : Batch}
-    {cut : Cut} {c' s : Nat} (hcap : inst.need c' ≤ w.total) (hg : gap inst c' b.rq w ≠ 0)
+    {cut : Cut} {c' s : Nat} (hcap : capable inst c' w = true) (hg : gap inst c' b.rq w ≠ 0)
     (hcv : (countVarsOf inst bs c').isEmpty = false) :
     ({ ge := false, bound := cut.size + b.size + gap inst c' b.rq w,
        terms := theP inst w b.rq ++ [(.B c' s, b.size)] } : Row) ∈ gapRows inst bs b cut c' (some s) := by
@@ -159,7 +158,7 @@ theorem gapRow_some_mem {inst : Instance} {w : Worker} (hw : inst.workers = [w])
   simp [hg, hcv, theP]
 
 theorem gapRow_none_mem {inst : Instance} {w : Worker} (hw : inst.workers = [w]) {bs : List Batch} {b : Batch}
-    {cut : Cut} {c' : Nat} (hcap : inst.need c' ≤ w.total) (hg : gap inst c' b.rq w ≠ 0) :
+    {cut : Cut} {c' : Nat} (hcap : capable inst c' w = true) (hg : gap inst c' b.rq w ≠ 0) :
     ({ ge := false, bound := cut.size + gap inst c' b.rq w, terms := theP inst w b.rq } : Row) ∈
       gapRows inst bs b cut c' none := by
   simp only [gapRows, capableWorkers_one hw, hcap, ↓reduceIte, List.mem_filterMap, List.mem_singleton]
@@ -167,14 +166,14 @@ theorem gapRow_none_mem {inst : Instance} {w : Worker} (hw : inst.workers = [w])
   simp [hg, theP]
 
 theorem zeroRow_some_mem {inst : Instance} {w : Worker} (hw : inst.workers = [w]) {bs : List Batch} {b : Batch}
-    {cut : Cut} {c' s : Nat} {flag : Bool} (hcap : inst.need c' ≤ w.total) (hg : gap inst c' b.rq w = 0)
+    {cut : Cut} {c' s : Nat} {flag : Bool} (hcap : capable inst c' w = true) (hg : gap inst c' b.rq w = 0)
     (hp : hasP inst w b.rq = true) (hcv : (countVarsOf inst bs c').isEmpty = false) :
     ({ ge := false, bound := b.size + cut.size, terms := [(.P w.id b.rq, 1), (.B c' s, b.size)] } : Row) ∈
       zeroRows inst bs b cut c' (some s) flag := by
   simp [zeroRows, zeroCond_one hw, hcap, hg, hp, hcv]
 
 theorem zeroRow_none_mem {inst : Instance} {w : Worker} (hw : inst.workers = [w]) {bs : List Batch} {b : Batch}
-    {cut : Cut} {c' : Nat} (hcap : inst.need c' ≤ w.total) (hg : gap inst c' b.rq w = 0)
+    {cut : Cut} {c' : Nat} (hcap : capable inst c' w = true) (hg : gap inst c' b.rq w = 0)
     (hp : hasP inst w b.rq = true) :
     ({ ge := false, bound := cut.size, terms := [(.P w.id b.rq, 1)] } : Row) ∈
       zeroRows inst bs b cut c' none true := by
